@@ -217,10 +217,20 @@ func Dump(v interface{}) string {
 	return sb.String()
 }
 
+// DumpSkipSync makes Dump render values of types from package sync / sync/atomic as opaque:
+// synchronisation state (a Pool's internals, a Once's done flag) is not shared *data*.
+var DumpSkipSync bool
+
 func dump(sb *strings.Builder, v reflect.Value, depth int) {
 	if !v.IsValid() {
 		sb.WriteString("<invalid>")
 		return
+	}
+	if DumpSkipSync {
+		if pp := v.Type().PkgPath(); pp == "sync" || pp == "sync/atomic" {
+			sb.WriteString("<" + v.Type().String() + ">")
+			return
+		}
 	}
 	if depth > 40 {
 		sb.WriteString("<deep>")
